@@ -8,6 +8,10 @@ SEQ_NOTE = ("trusted: gcc/ASan/UBSan, the reference model in seq/, the harness s
 VK_NOTE = ("trusted: the virtual kernel model (vk/kernel.hpp, vk/ops.hpp; bound to Linux by vk/conformance), the LD_PRELOAD shim, the scenario's "
            "oracle; the programs are the unmodified binaries built from /repo's working tree by its own Makefile")
 CHECKS = {
+ "C18": dict(engine="VK", category="exploration", design_ref="4/C18",
+             technique="bounded-exhaustive request enumeration against the real qmail-clean binary under the virtual kernel (one request per quiescent interval; oracle on the exact unlink() paths and reply bytes), with every unlink failing once",
+             text="Validation bugs show only on malformed requests; every request of the bounded set is sent to the real helper and its system calls are compared with the documented behaviour, so within the bound acceptance and effect are decided for all requests.",
+             note=VK_NOTE + "; parts still to come in this check: spawner command streams, qmail-send report channels (see DESIGN.md)"),
  "C01": dict(engine="VK", category="fault_enumeration", design_ref="4/C01",
              technique="stateless exhaustive exploration of the real qmail-queue binary under a virtual kernel: every input of a boundary grid x every system-call index x {process kill, machine crash with every keep/lose pattern of unsynced data, every applicable errno, short write, short/interrupted read}; invariant evaluated after every call and on every post-crash image",
              text="The property quantifies over crash instants and single I/O failures; the explorer visits every one of them for every input of the grid (one deviation quick, all pairs thorough) on the real binary, so within those bounds the ordering 'fsync both, then one link' and the cleanup paths are decided exhaustively.",
